@@ -265,6 +265,13 @@ def gen_c01(rng: random.Random, tier: str) -> Dict[str, Any]:
             if o["op"] == "learn" and rng.random() < 0.5:
                 o["op"] = "act"
         ops.insert(0, {"op": "act", "i": 0, "seed": rng.getrandbits(31)})
+    if cfg.get("wrapper") == "RSNorm":
+        # the wrapper's running observation statistics only move when the agent acts in training mode: they must have moved before a clone can lose them
+        for o in ops:
+            if o["op"] == "learn" and rng.random() < 0.4:
+                o["op"] = "act"
+                o.pop("k", None)
+        ops.insert(0, {"op": "act", "i": 0, "seed": rng.getrandbits(31)})
     if cfg["algo"] in ("DDPG", "TD3", "MADDPG", "MATD3"):
         # exploration-noise state (Ornstein-Uhlenbeck process) is agent state too: it advances when the agent acts in training mode and
         # is reset at episode ends; a clone must own its copy
@@ -693,7 +700,7 @@ def gen_c06(rng: random.Random, tier: str) -> Dict[str, Any]:
             return round(rng.uniform(0.05, 0.99), 3) if kind == "shrink" else round(rng.uniform(1.01, 4.0), 3)
         cfg["hp_rand"] = {"lr": [round(rng.uniform(0.01, 1.0), 4), round(rng.uniform(1.0, 50.0), 3), fac("shrink"), fac("grow")],
                           "lr2": [round(rng.uniform(0.01, 1.0), 4), round(rng.uniform(1.0, 50.0), 3), fac("shrink"), fac("grow")],
-                          "bs": [rng.randint(0, 6), rng.randint(0, 24), fac("shrink"), fac("grow")]}
+                          "bs": [rng.randint(0, 6), rng.randint(0, 24), fac("shrink"), fac("grow")], "bs_float_limits": rng.random() < 0.4}
     ops = []
     if rng.random() < 0.35:
         # the parameter object on its own, including ranges no learning rate would have (negative, straddling zero)
@@ -703,7 +710,9 @@ def gen_c06(rng: random.Random, tier: str) -> Dict[str, Any]:
         if dt == "int":
             lo, hi = float(int(lo)), float(int(lo) + rng.randint(0, 9))
         ops.append({"op": "param_walk", "min": lo, "max": hi, "shrink": rng.choice([0.8, 0.5, 0.99, 1.0, 1.4]), "grow": rng.choice([1.2, 3.0, 1.01, 1.0, 0.7]),
-                    "dtype": dt, "start": rng.random(), "k": rng.randint(1, 12), "seed": rng.getrandbits(31)})
+                    "dtype": dt, "start": rng.random(), "k": rng.randint(1, 12), "seed": rng.getrandbits(31),
+                    # limits written in the other number type (8.0 for an integer parameter, 0 / 1 for a float one) are legal: the result still has the configured type
+                    "limit_type": rng.choice(["same", "same", "other"])})
     for _ in range(rng.randint(1, 8 if tier == "quick" else 40)):
         x = rng.random()
         s = rng.getrandbits(31)
@@ -744,7 +753,10 @@ def _c06_hp(cfg):
             a, b, sh, gr = r[key]
             kw[n_] = RLParameter(min=cur * a, max=cur * b, shrink_factor=sh, grow_factor=gr)
         d, u, sh, gr = r["bs"]
-        kw["batch_size"] = RLParameter(min=max(1, cfg["batch_size"] - d), max=cfg["batch_size"] + u, dtype=int, shrink_factor=sh, grow_factor=gr)
+        lo_, hi_ = max(1, cfg["batch_size"] - d), cfg["batch_size"] + u
+        if r.get("bs_float_limits"):
+            lo_, hi_ = float(lo_), float(hi_)
+        kw["batch_size"] = RLParameter(min=lo_, max=hi_, dtype=int, shrink_factor=sh, grow_factor=gr)
     else:  # at_bounds: current value equals min or max
         for n_ in lr_names:
             kw[n_] = RLParameter(min=cfg["lr"] * (2 if n_ == "lr_critic" else 1), max=cfg["lr"] * (2 if n_ == "lr_critic" else 1) * 1.1)
@@ -820,7 +832,14 @@ def run_c06(ctx: kernel.Ctx, case: Dict[str, Any]) -> None:
             from agilerl.algorithms.core.registry import RLParameter
 
             dt = int if op["dtype"] == "int" else float
-            prm = RLParameter(min=dt(op["min"]), max=dt(op["max"]), shrink_factor=op["shrink"], grow_factor=op["grow"], dtype=dt)
+            lo_, hi_ = dt(op["min"]), dt(op["max"])
+            if op.get("limit_type") == "other":
+                if dt is int:
+                    lo_, hi_ = float(lo_), float(hi_)
+                elif float(lo_).is_integer() and float(hi_).is_integer():
+                    lo_, hi_ = int(lo_), int(hi_)
+                ctx.probe("limits_in_other_number_type")
+            prm = RLParameter(min=lo_, max=hi_, shrink_factor=op["shrink"], grow_factor=op["grow"], dtype=dt)
             prm.value = dt(op["min"] + op["start"] * (op["max"] - op["min"]))
             if dt is int:
                 prm.value = int(min(max(prm.value, prm.min), prm.max))
